@@ -896,6 +896,48 @@ def case_rigid(fam, rep, n=None):
     return fn
 
 
+def case_rigid_orthotropic(rep):
+    """An unconstrained body of the orthotropic linear-elastic law ("all elastic constants"): exactly six zero-frequency modes - a rigid
+    rotation stores no energy whatever the ratios of the nine constants (round 11: two missing cross terms of one shear block left five) -
+    and the isotropic limit of the constants gives the spectrum of the isotropic law. The hooks judge every returned pair."""
+    def fn(run):
+        import felupe as fem
+        rng = rng_for(run.seed, "C18", "rigid-orthotropic", rep)
+        attach_hooks(run)
+        try:
+            fam = ["hexahedron", "tetra10", "hexahedron20"][rep % 3]
+            mesh, L = problems.box_mesh(fam, rng, lengths=rng.uniform(0.8, 2.5, 3))
+            field = field_of(fam, mesh)
+            E = rng.uniform(1.0, 10.0, 3)
+            nu = rng.uniform(0.05, 0.3, 3)
+            G = rng.uniform(0.5, 4.0, 3)
+            rho = float(rng.uniform(0.5, 5))
+            solid = fem.SolidBody(fem.LinearElasticOrthotropic(E=E.tolist(), nu=nu.tolist(), G=G.tolist()), field, density=rho)
+            k = 10
+            scale = float(E.min()) / (rho * float(np.max(L)) ** 2)
+            job = fem.FreeVibration([solid]).evaluate(k=k, solver=shifted_solver(-1e-3 * scale))
+            lam = np.sort(job.eigenvalues)
+            nz = int(np.sum(np.abs(lam) < 1e-7 * lam[6]))
+            if nz == 6:
+                run.ok("modal.rigid", unit="modal:rigid-modes:orthotropic", config=("rigid-orthotropic", fam), sample={"family": fam, "eigenvalues": lam.tolist()})
+            else:
+                run.fail("modal.rigid", "clause=rigid-mode-count law=LinearElasticOrthotropic", "unconstrained orthotropic %s body has %d zero-frequency modes, "
+                         "expected 6" % (fam, nz), {"eigenvalues": lam})
+            # isotropic limit: E_i = E, nu_ij = nu, G_ij = E / (2 (1 + nu)) is the isotropic law
+            E0, nu0 = float(E[0]), float(nu[0])
+            G0 = E0 / (2 * (1 + nu0))
+            si = fem.SolidBody(fem.LinearElasticOrthotropic(E=[E0] * 3, nu=[nu0] * 3, G=[G0] * 3), field_of(fam, mesh), density=rho)
+            sr = fem.SolidBody(fem.LinearElastic(E=E0, nu=nu0), field_of(fam, mesh), density=rho)
+            li = np.sort(fem.FreeVibration([si]).evaluate(k=k, solver=shifted_solver(-1e-3 * scale)).eigenvalues)
+            lr = np.sort(fem.FreeVibration([sr]).evaluate(k=k, solver=shifted_solver(-1e-3 * scale)).eigenvalues)
+            run.compare("modal.rigid", "clause=isotropic-limit-of-the-orthotropic-law", maxabs(li - lr) / max(maxabs(lr), 1e-300), 1e-7,
+                        "the spectrum of the orthotropic law with isotropic constants differs from the one of the isotropic law", unit="modal:orthotropic-isotropic-limit",
+                        config=("orthotropic-limit", fam))
+        finally:
+            attach.detach_all()
+    return fn
+
+
 PRESTRETCHED = ("hexahedron", "quad", "tetra")
 
 
@@ -1027,6 +1069,8 @@ def cases(tier, seed):
         for cells_, n_ in ((1, (2, 2, 2) if d3 else (2, 2)), (2, (3, 2, 2) if d3 else (3, 2))):
             for rep in range(1 if tier == "quick" else 2):
                 out.append(("rigid:%s:%d-cell:%d" % (fam, cells_, rep), case_rigid(fam, 20 + rep, n=n_)))
+    for rep in range(3 if tier == "quick" else 9):
+        out.append(("rigid-orthotropic:%d" % rep, case_rigid_orthotropic(rep)))
     for rep in range(2 if tier == "quick" else 6):
         out.append(("sizes:%d" % rep, case_sizes(rep)))
     for fam in DETERMINATE:
@@ -1047,7 +1091,7 @@ SPEC = {
                        "modal:prestretched:SolidBodyNearlyIncompressible+SolidBody", "modal:mixed-container:re-evaluated",
                        # fourth audit (mirrored oracles): multiplier / density from the constructor arguments, prescribed unknowns from the
                        # arguments of Boundary, total mass from the caller's box, default rules with their documented point counts
-                       "modal:multiplier-from-constructor-argument", "modal:multiplier-scaling-law", "modal:prescribed-from-arguments", "modal:total-mass",
+                       "modal:multiplier-from-constructor-argument", "modal:multiplier-scaling-law", "modal:prescribed-from-arguments", "modal:total-mass", "modal:rigid-modes:orthotropic", "modal:orthotropic-isotropic-limit",
                        "modal:default-rule-points"]
                       + ["modal:mixed-container:%s" % m for m in MIXED] + ["modal:family:%s" % f for f in MORE_FAMILIES],
     "rule": ("linear-elastic bodies on 12 element families plus RegionLagrange (3D, plane strain, plane stress) with random box dimensions, "
